@@ -115,7 +115,7 @@ func (n *Net) findListener(dst *net.TCPAddr) *TCPListener {
 	if l, ok := n.listeners[udpKey(dst.IP, dst.Port)]; ok {
 		return l
 	}
-	if l, ok := n.listeners[udpKey(nil, dst.Port)]; ok {
+	if l, ok := n.listeners[udpKey(nil, dst.Port)]; ok && n.isLocal(dst.IP) {
 		return l
 	}
 	return nil
